@@ -18,19 +18,10 @@ def summary(e):
         ("+%d" % e["at2"]) if e["at2"] else "", e["res"])
 
 
-def check(ctx):
-    quick = ctx.quick()
-    log("== C12 (%s, seed %d): FailedOpIsStutter, RetrySucceeds" % (ctx.tier, ctx.seed))
-    mc = []
-    r = model_check(ctx, "MastFaults.tla", "MC_Faults_q.cfg" if quick else "MC_Faults.cfg", workers=12, heap=8, timeout=1800)
-    states, trans = r["distinct"], r["generated"]
-    mc.append(dict(cfg="MC_Faults", distinct=r["distinct"], generated=r["generated"], wall_s=round(r["wall"], 1)))
-    # the current release's two non-atomic phases must show up as design-level counterexamples (they are the recorded findings)
-    r = model_check(ctx, "MastFaults.tla", "MC_Faults_current.cfg", expect_ok=False, workers=4, heap=4, timeout=600)
-    mc.append(dict(cfg="MC_Faults_current.cfg", expected="counterexample", found=r["error"]))
-    drv = build_harness(ctx)
+def fault_runs(ctx, drv, n, budget, workers):
+    """Run the fault enumeration on the real code and have TLC judge every run (TraceFaults.tla)."""
     trace = os.path.join(ctx.scratch, "faults.ndjson")
-    run_driver(ctx, drv, ["faults", "-seed", str(ctx.seed), "-n", "250" if quick else "3000", "-budget", "8" if quick else "40", "-out", trace], timeout=3000)
+    run_driver(ctx, drv, ["faults", "-seed", str(ctx.seed), "-n", n, "-budget", budget, "-out", trace], timeout=3000)
     ident = lambda ln: None
     # every event is its own case; identify by line number
     lines = open(trace).read().splitlines(True)
@@ -41,7 +32,7 @@ def check(ctx):
             e["tree"] = e["id"]
             e["id"] = i
             f.write(json.dumps(e) + "\n")
-    files, chunks, start, reports = validate_parallel(ctx, "TraceFaults.tla", "TraceFaults.cfg", numbered, 4 if quick else 14,
+    files, chunks, start, reports = validate_parallel(ctx, "TraceFaults.tla", "TraceFaults.cfg", numbered, workers,
                                                       is_start=lambda ln: True, ident=lambda ln: json.loads(ln)["id"])
     stat, viols = {}, []
     for f, rep in zip(files, reports):
@@ -56,6 +47,21 @@ def check(ctx):
         e = json.loads(lines[0])
         return summary(e), dict(event=e, validate_with="specs/TraceFaults.tla"), lines[0]
 
+    return viols, start, by_id, describe, stat, chunks
+
+
+def check(ctx):
+    quick = ctx.quick()
+    log("== C12 (%s, seed %d): FailedOpIsStutter, RetrySucceeds" % (ctx.tier, ctx.seed))
+    mc = []
+    r = model_check(ctx, "MastFaults.tla", "MC_Faults_q.cfg" if quick else "MC_Faults.cfg", workers=12, heap=8, timeout=1800)
+    states, trans = r["distinct"], r["generated"]
+    mc.append(dict(cfg="MC_Faults", distinct=r["distinct"], generated=r["generated"], wall_s=round(r["wall"], 1)))
+    # the current release's two non-atomic phases must show up as design-level counterexamples (they are the recorded findings)
+    r = model_check(ctx, "MastFaults.tla", "MC_Faults_current.cfg", expect_ok=False, workers=4, heap=4, timeout=600)
+    mc.append(dict(cfg="MC_Faults_current.cfg", expected="counterexample", found=r["error"]))
+    drv = build_harness(ctx)
+    viols, start, by_id, describe, stat, chunks = fault_runs(ctx, drv, "250" if quick else "3000", "8" if quick else "40", 4 if quick else 14)
     rc, nnew = report_violations(ctx, viols, start, by_id, describe)
     distinct = len(set((json.loads(c[0])["tree"], json.dumps(json.loads(c[0])["call"]), json.loads(c[0])["kind"], json.loads(c[0])["at"], json.loads(c[0])["at2"]) for c in chunks))
     nontrivial = stat.get("errs", 0) + stat.get("swallowed", 0)
